@@ -195,11 +195,13 @@ package engine
 //@             ((newpremises[i] as ast.TemporalLiteral).Literal as ast.Atom) == makeDeltaAtom((rule.Premises[i] as ast.TemporalLiteral).Literal as ast.Atom)
 
 // ---- C02: a do-transform reduces exactly the rows of each group ------------------------------------------------
-// groupKeyString is a function of the key (ASSUMED deterministic; its injectivity is NOT assumed here).
+// groupKeyString is a function of the key (its result is not specified to callers; its injectivity is NOT assumed).
+// Each component is written as <length>:<text>| where text is the constant's String() form - the escaped, quoted
+// source form, not the display form (which does not escape string contents and is not injective on compound values).
 //@ func groupKeyString(keys)
 //@   pure
-//@   trusted
-//@   modifies nothing
+//@   opt nosafety
+//@   guard call Fprintf in loop 1: arg1 == "%d:%s|" && len(arg2) == 2 && (arg2[1] as string) == k.String() && (arg2[0] as int) == len(k.String())
 
 // Grouping loop: every group holds rows of the input, in input order, each recorded with its position; every row
 // processed so far sits in the group filed under its own key string. Reduction loop: it is left early only with an
